@@ -2,7 +2,9 @@
 structured input per case.  stdin: {"cases": [case, ...]}; stdout (last line): [obs, ...].
 
 case  = {"parser": P, "env": null | OBJ, "envmode": MODE (optional, default "ctor"),
-         "entry": {"kind": "args", "argv": A} | {"kind": "object"|"string", "cfg": OBJ}}
+         "entry": {"kind": "args", "argv": A} | {"kind": "object"|"string", "cfg": OBJ} | {"kind": "env", "map": OBJ}}
+        kind "env": parser.parse_env(<variables rendered from "map">) — an EXPLICIT mapping; os.environ holds only the
+        variables of "env" ([] = none): they are decoys this parse must not see
 MODE  = how environment parsing is switched on/off while the variables of "env" are in os.environ:
         "ctor"       root built with default_env=True
         "setter"     tree built with default_env=False, THEN root.default_env = True (the setter must reach every level)
@@ -109,6 +111,8 @@ def run(case):
     try:
         if e["kind"] == "args":
             cfg = parser.parse_args(render_argv(e["argv"]), **kw)
+        elif e["kind"] == "env":
+            cfg = parser.parse_env(render_env(e["map"]))
         elif e["kind"] == "object":
             cfg = parser.parse_object(obj(e["cfg"]), **kw)
         else:
